@@ -8,6 +8,7 @@ package main
 
 import (
 	"bufio"
+	"context"
 	"flag"
 	"fmt"
 	"math/rand"
@@ -172,12 +173,23 @@ type ckResp struct {
 }
 
 // get performs one navigation request with the jar's cookies and stores the response cookies.
-func (b *ckBrowser) get(pathAndQuery string) ckResp {
+func (b *ckBrowser) get(pathAndQuery string) ckResp { return b.getCancel(pathAndQuery, 0) }
+
+// getCancel is get with the request's context cancelled after d (> 0) of fake time, the way net/http cancels it when the
+// peer goes away; what wonderwall writes to the response after that is recorded (and stored in the jar) all the same.
+func (b *ckBrowser) getCancel(pathAndQuery string, d time.Duration) ckResp {
 	u, err := url.Parse(b.base() + pathAndQuery)
 	if err != nil {
 		panic(err)
 	}
 	req := httptest.NewRequest("GET", u.String(), nil)
+	if d > 0 {
+		ctx, cancel := context.WithCancel(req.Context())
+		defer cancel()
+		t := time.AfterFunc(d, cancel)
+		defer t.Stop()
+		req = req.WithContext(ctx)
+	}
 	navHeaders(req)
 	for _, c := range b.jar.Cookies(u) {
 		req.AddCookie(c)
@@ -190,25 +202,111 @@ func (b *ckBrowser) get(pathAndQuery string) ckResp {
 	return ckResp{status: rec.Code, cookies: cs, loc: rec.Header().Get("Location")}
 }
 
+// splitFault: "e500.t" -> ("e500", "t"); the part after the dot names the CAUSE of the failure (Model/Retry.v fcause).
+func splitFault(f string) (base, cause string) {
+	base, cause, _ = strings.Cut(f, ".")
+	return
+}
+
+var (
+	errStoreTimeout  = fmt.Errorf("verif: injected store fault: %w", context.DeadlineExceeded)
+	errStoreCanceled = fmt.Errorf("verif: injected store fault: %w", context.Canceled)
+)
+
+// arrange makes the next request to endpoint ep fail for the cause the fault names; undo removes the fault again.
+//
+//	(none) login: the provider refuses the pushed authorization request (4xx); callback: see request()
+//	5      the provider endpoint (login: PAR, callback: token) answers 5xx, for the whole retry budget where there is one
+//	m      ... answers 2xx with a body that does not decode
+//	t      ... accepts the connection and never answers: the client's own 10 s timeout fires (fake clock)
+//	x      ... never answers and the request's context is cancelled after 1 s
+//	r      ... refuses the connection
+//	s      every session-store operation fails; st: with context.DeadlineExceeded in the error chain; sc: with context.Canceled
+func (b *ckBrowser) arrange(ep, fault string) (undo func(), cancelAfter time.Duration) {
+	base, cause := splitFault(fault)
+	undo = func() {}
+	if !strings.HasPrefix(base, "e") {
+		return
+	}
+	idp := b.s.idp
+	endpoint := map[string]string{"L": "/par", "C": "/token"}[ep]
+	switch cause {
+	case "":
+		if ep == "L" {
+			idp.mu.Lock()
+			idp.nextMode = "4xx" // pushed authorization request is refused
+			idp.mu.Unlock()
+		}
+	case "5":
+		idp.setSticky(endpoint, "5xx")
+	case "m":
+		idp.setSticky(endpoint, map[string]string{"/par": "bad201", "/token": "badjson"}[endpoint])
+	case "t":
+		idp.setSticky(endpoint, "hang")
+	case "x":
+		idp.setSticky(endpoint, "hang")
+		cancelAfter = time.Second
+	case "r":
+		b.s.net.setDown("idp:80", true)
+	case "s":
+		b.s.gmem.setSticky(errInjected)
+	case "st":
+		b.s.gmem.setSticky(errStoreTimeout)
+	case "sc":
+		b.s.gmem.setSticky(errStoreCanceled)
+	default:
+		panic("unknown failure cause " + fault)
+	}
+	undo = func() {
+		idp.mu.Lock()
+		idp.nextMode = ""
+		idp.mu.Unlock()
+		if endpoint != "" {
+			idp.setSticky(endpoint, "")
+		}
+		b.s.net.setDown("idp:80", false)
+		if b.s.gmem != nil {
+			b.s.gmem.setSticky(nil)
+		}
+	}
+	return
+}
+
+func (b *ckBrowser) notePending(r ckResp) {
+	if r.status != http.StatusFound {
+		return
+	}
+	if loc, err := url.Parse(r.loc); err == nil {
+		params := loc.Query()
+		if ru := params.Get("request_uri"); ru != "" {
+			b.s.idp.mu.Lock()
+			params = b.s.idp.parReqs[ru]
+			b.s.idp.mu.Unlock()
+		}
+		b.pending = params
+	}
+}
+
 // request performs endpoint ep at path with the fault arranged as the model's environment does.
 func (b *ckBrowser) request(ep, path, fault string, prompt bool) ckResp {
 	q := ""
+	base, cause := splitFault(fault)
 	switch ep {
 	case "L":
 		if prompt {
 			q = "?prompt=login"
 		}
-		if strings.HasPrefix(fault, "e") {
-			b.s.idp.mu.Lock()
-			b.s.idp.nextMode = "4xx" // pushed authorization request is refused
-			b.s.idp.mu.Unlock()
-		}
 	case "C":
 		switch {
-		case fault == "n":
+		case fault == "n" || (strings.HasPrefix(base, "e") && cause != ""):
+			// a callback that passes every browser-side check (code and state of the pending login); with a cause the failure
+			// comes afterwards, from the token endpoint or from the session store
 			b.nsid++
-			b.sid = fmt.Sprintf("sid-%d", b.nsid)
-			code := b.s.idp.authorize(b.pending, b.sid, "")
+			sid := fmt.Sprintf("sid-%d", b.nsid)
+			if fault == "n" {
+				b.sid = sid
+			}
+			code := b.s.idp.authorize(b.pending, sid, "")
 			q = "?" + url.Values{"code": {code}, "state": {b.pending.Get("state")}}.Encode()
 		case fault == "e500":
 			q = "?" + url.Values{"error": {"access_denied"}, "state": {b.pending.Get("state")}}.Encode()
@@ -220,20 +318,11 @@ func (b *ckBrowser) request(ep, path, fault string, prompt bool) ckResp {
 			q = "?sid=" + url.QueryEscape(b.sid)
 		}
 	}
-	r := b.get(path + q)
-	b.s.idp.mu.Lock()
-	b.s.idp.nextMode = ""
-	b.s.idp.mu.Unlock()
-	if ep == "L" && r.status == http.StatusFound {
-		if loc, err := url.Parse(r.loc); err == nil {
-			params := loc.Query()
-			if ru := params.Get("request_uri"); ru != "" {
-				b.s.idp.mu.Lock()
-				params = b.s.idp.parReqs[ru]
-				b.s.idp.mu.Unlock()
-			}
-			b.pending = params
-		}
+	undo, cancelAfter := b.arrange(ep, fault)
+	r := b.getCancel(path+q, cancelAfter)
+	undo()
+	if ep == "L" {
+		b.notePending(r)
 	}
 	return r
 }
@@ -340,25 +429,11 @@ func (b *ckBrowser) followChain(via bool, ep, path string, faults []string) []in
 		var r ckResp
 		if strings.Contains(target, "?") {
 			// a Location produced by wonderwall: request it verbatim (fault arranged as in request())
-			if ep == "L" && strings.HasPrefix(f, "e") {
-				b.s.idp.mu.Lock()
-				b.s.idp.nextMode = "4xx"
-				b.s.idp.mu.Unlock()
-			}
-			r = b.get(target)
-			b.s.idp.mu.Lock()
-			b.s.idp.nextMode = ""
-			b.s.idp.mu.Unlock()
-			if ep == "L" && r.status == http.StatusFound {
-				if loc, err := url.Parse(r.loc); err == nil {
-					params := loc.Query()
-					if ru := params.Get("request_uri"); ru != "" {
-						b.s.idp.mu.Lock()
-						params = b.s.idp.parReqs[ru]
-						b.s.idp.mu.Unlock()
-					}
-					b.pending = params
-				}
+			undo, cancelAfter := b.arrange(ep, f)
+			r = b.getCancel(target, cancelAfter)
+			undo()
+			if ep == "L" {
+				b.notePending(r)
 			}
 		} else {
 			r = b.request(ep, target, f, false)
